@@ -196,6 +196,85 @@ def expect_ok(exp, r):
     raise ToolError("bad expectation %r" % (exp,))
 
 
+# --------------------------------------------------------------------------
+# (B) trace validation of independent events (EventTrace.tla over Ops.tla)
+# --------------------------------------------------------------------------
+def eventtrace(v, tag, plan, aspects, shard=6000, profile="release", jobs=None):
+    """plan: list of (op, args).  Executes it on the real crate (harness),
+    validates the recorded events with TLC; mismatches whose aspect is in
+    `aspects` ("result" / "range" / "panic") belong to the property."""
+    vlib.build_harness(profile)
+    wd = vlib.workdir("%s_%s" % (v.prop, tag))
+    # shuffle so that expensive events (big-integer clauses) spread over the shards
+    import random
+    plan = list(plan)
+    random.Random(v.seed).shuffle(plan)
+    nsh = max(1, min(len(plan) // 400, max(vlib.NCPU - 2, (len(plan) + shard - 1) // shard)))
+    per = (len(plan) + nsh - 1) // nsh
+    shards = [plan[i:i + per] for i in range(0, len(plan), per)]
+    cfg = os.path.join(vlib.SPEC, "EventTrace.cfg")
+    log("[%s] eventtrace %s: %d events in %d shards (%s)" % (v.prop, tag, len(plan), len(shards), profile))
+
+    def one(k):
+        pf = os.path.join(wd, "p%d.ndjson" % k)
+        with open(pf, "w") as fh:
+            for op, a in shards[k]:
+                fh.write(json.dumps({"op": op, "a": a}) + "\n")
+        tf = os.path.join(wd, "t%d.ndjson" % k)
+        vlib.vh(["events", "--out", tf, "--plan", pf], profile=profile)
+        res = vlib.tlc("EventTrace.tla", cfg, env={"TRACE": tf}, workers=1, xmx="3g", timeout=3000,
+                       metadir=os.path.join(wd, "meta%d" % k))
+        acc = res.tagged("ACCEPTED")
+        if not acc or res.errors:
+            m_ = res.out.find("Error:")
+            raise ToolError("EventTrace shard %d of %s not accepted by TLC (trace kept: %s):\n%s" % (k, tag, tf, res.out[m_:m_ + 2500] if m_ >= 0 else res.out[-2500:]))
+        out = []
+        mism = res.tagged("MISMATCH")
+        if mism:
+            lines = open(tf).read().splitlines()
+            for mm in mism:
+                i, op, asp = mm[1], mm[2], mm[3]["#set"]
+                ev = json.loads(lines[i - 1])
+                want = aspects(op) if callable(aspects) else aspects
+                for a_ in asp:
+                    if a_ in want:
+                        out.append(({"op": op, "aspect": a_, "a": shards[k][i - 1][1]}, {"observed": ev["r"]}))
+        sample = None
+        if k == 0:
+            with open(tf) as fh:
+                sample = [fh.readline().strip()[:300] for _ in range(2)]
+        os.remove(tf)
+        os.remove(pf)
+        return res, len(shards[k]), out, sample
+
+    results = vlib.parallel(one, list(range(len(shards))), jobs=jobs)
+    distinct = len({(op, repr(a)) for op, a in plan})
+    v.cov["distinct_nontrivial"] += distinct
+    for res, n, out, sample in results:
+        v.add_tlc(res, "TRACE=<events.ndjson> tlc -workers 1 -config EventTrace.cfg EventTrace.tla")
+        v.cov["traces_validated_against_impl"] += 1
+        v.cov["evaluations"] += n
+        if sample:
+            v.sample({"events": sample})
+        for key, det in out:
+            enrich_key(key)
+            v.mismatch("EventTrace:" + key["op"], key, det)
+    shutil.rmtree(wd, ignore_errors=True)
+
+
+def enrich_key(key):
+    """Adds civil fields of the first argument when it is a date-like value,
+    so that known findings can be identified by input class."""
+    a = key.get("a") or []
+    if a:
+        x = a[0]
+        n = x if isinstance(x, int) else (x[0] if isinstance(x, list) and len(x) == 3 and isinstance(x[0], int) else None)
+        if n is not None and -719162 <= n <= 2932896 and key["op"].split(".")[0] in ("D", "TS", "OD"):
+            key["y"], key["m"], key["d"] = civil(n)
+    if key["op"].endswith((".trunc", ".round")) and len(a) > 1:
+        key["unit"] = UNITS[a[1] - 1]
+
+
 # ==========================================================================
 # C01
 # ==========================================================================
@@ -294,6 +373,180 @@ def c11(v):
     if v.tier == "quick":
         daysweep(v, "round_edges", vlib.edge_ranges(), "dtr", {"rd", "rdmono"}, 30000)
     v.cov["exhaustive"] = v.tier == "thorough"
+
+
+# ==========================================================================
+# pools-based properties
+# ==========================================================================
+def scale_of(v):
+    return 1 if v.tier == "quick" else 4
+
+
+LINEAR_OPS = ["D.add_days", "D.sub_days", "D.sub_date", "D.add_interval_dt", "D.sub_interval_dt", "D.add_time", "D.sub_time",
+              "D.sub_timestamp", "D.and_time", "D.to_ts",
+              "TS.add_interval_dt", "TS.sub_interval_dt", "TS.add_time", "TS.sub_time", "TS.add_days", "TS.sub_days",
+              "TS.sub_date", "TS.sub_timestamp", "TS.oracle_sub_date",
+              "YM.add_interval_ym", "YM.sub_interval_ym", "DT.add_interval_dt", "DT.sub_interval_dt", "DT.sub_time",
+              "OD.add_interval_dt", "OD.sub_interval_dt", "OD.add_time", "OD.sub_time", "OD.sub_date", "OD.sub_timestamp"]
+
+
+@prop("C02")
+def c02(v):
+    import pools
+    v.cov["rule"] = ("every safe public operation of Ops.tla x operand tuples from per-type boundary pools (range ends +-1, epoch, "
+                     "month/year/century ends, leap days, noon/midnight +-1us, interval limits +-1, i32/u32/i64/f64 extremes) and "
+                     "seeded random values; every recorded event is judged by EventTrace.tla; the C02 aspect is "
+                     "ValueInRange(op, r): a returned value lies in its type's range. distinct_nontrivial = distinct (op, args).")
+    P = pools.Pools(v.seed, scale_of(v))
+    plan = pools.plan_for(sorted(pools.SIG), P, cap=1200 * scale_of(v))
+    eventtrace(v, "pools", plan, {"range"})
+
+
+@prop("C08")
+def c08(v):
+    import pools
+    v.cov["rule"] = ("linear operations (add/sub days, times, day-time intervals, differences, fractional days) x operand pairs from "
+                     "boundary pools (range ends, +-1 unit, one unit past the range, epoch, i32 extremes, dyadic/decimal day "
+                     "fractions) and seeded random values; judged by Ops.tla's exact mixed-radix arithmetic (succeeds iff the exact "
+                     "result is in range; fractional days = nearest microsecond via big integers).")
+    P = pools.Pools(v.seed, scale_of(v) * 2)
+    plan = pools.plan_for(LINEAR_OPS, P, cap=4000 * scale_of(v))
+    eventtrace(v, "linear", plan, {"result", "range", "panic"})
+
+
+DT_BOUNDARY = None
+
+
+def dt_boundary(P):
+    import pools
+    day = 86400 * 10**6
+    mx = pools.DT_MAX_D * day
+    xs = [0, 1, -1, day - 1, -(day - 1), day, -day, day + 1, -(day + 1), 7 * day, -7 * day, mx, -mx, mx - 1, -(mx - 1),
+          12 * 3600 * 10**6, -12 * 3600 * 10**6, 10**6, -10**6, 2 * day - 1, -(2 * day - 1)]
+    xs += [P.rnd.randint(-mx, mx) for _ in range(3)] + [P.rnd.randint(-3 * day, 3 * day) for _ in range(3)]
+    return [pools.us3(x) for x in xs]
+
+
+@prop("C12")
+def c12(v):
+    import pools
+    v.cov["rule"] = ("seconds of the day (quick: every 7th + all hh:59:59, thorough: all 86,400) x boundary intervals (0, +-1us, "
+                     "+-(1d-1us), +-1d, whole days, range limits, random) through Time +/- IntervalDT, judged by Ops.tla "
+                     "(mixed-radix sum with the day digit dropped = modulo 24h); Time - Time, Interval -> Time, Time vs "
+                     "Interval comparisons over pools. distinct_nontrivial = distinct (op, args).")
+    P = pools.Pools(v.seed, scale_of(v))
+    ivs = dt_boundary(P)
+    step = 7 if v.tier == "quick" else 1
+    secs = sorted(set(list(range(0, 86400, step)) + [h * 3600 + 3599 for h in range(24)] + [h * 3600 for h in range(24)]))
+    usl = [0, 1, 499999, 500000, 999999]
+    plan = []
+    for k, s_ in enumerate(secs):
+        t = [s_, usl[k % 5]]
+        for j, iv in enumerate(ivs):
+            plan.append(("T.add_interval_dt" if (k + j) % 2 == 0 else "T.sub_interval_dt", [t, iv]))
+        if v.tier == "thorough":
+            for j, iv in enumerate(ivs):
+                plan.append(("T.sub_interval_dt" if (k + j) % 2 == 0 else "T.add_interval_dt", [t, iv]))
+    plan += pools.plan_for(["T.add_interval_dt", "T.sub_interval_dt", "T.sub_time", "T.from_dt", "DT.from_time", "T.ord_dt",
+                            "DT.ord_t", "DT.sub_time", "T.usecs", "T.try_from_usecs"], P, cap=3000)
+    eventtrace(v, "time", plan, {"result", "range", "panic"}, shard=30000)
+
+
+@prop("C13")
+def c13(v):
+    import pools
+    v.cov["rule"] = ("year-month intervals k over windows (quick: +-20000, the limits +-2000, stride 99991; thorough: +-2000000, "
+                     "limits +-200000, stride 997): try_from_months, extract, try_from_ym(fields), is_valid_ym, negation, signed "
+                     "accessors, order vs k-1; day-time intervals at powers of ten, unit boundaries +-1us, seconds within +-2 days, "
+                     "limits, random: try_from_usecs, extract, try_from_dhms(fields), negation, accessors, order; constructor "
+                     "validity grids incl. u32 extremes. All judged by Ops.tla (sign-magnitude decomposition in mixed radix).")
+    P = pools.Pools(v.seed, scale_of(v))
+    YM = pools.YM_MAX
+    if v.tier == "quick":
+        ks = set(range(-20000, 20001)) | set(range(YM - 2000, YM + 1)) | set(range(-YM, -YM + 2001)) | set(range(-YM, YM + 1, 99991))
+    else:
+        ks = set(range(-2000000, 2000001)) | set(range(YM - 200000, YM + 1)) | set(range(-YM, -YM + 200001)) | set(range(-YM, YM + 1, 997))
+    plan = []
+    for k in sorted(ks):
+        y, m = abs(k) // 12, abs(k) % 12
+        plan.append(("YM.extract", [k]))
+        plan.append(("YM.try_from_ym", [y, m]))
+        plan.append(("YM.neg", [k]))
+        plan.append(("YM.acc", [k]))
+        if k > -YM:
+            plan.append(("YM.ord", [k, k - 1]))
+        if k % 5 == 0:
+            plan.append(("YM.try_from_months", [k]))
+            plan.append(("YM.is_valid_ym", [y, m]))
+    for k in [YM + 1, -YM - 1, YM + 12, pools.I32_MAX, pools.I32_MIN, -YM - 13]:
+        plan.append(("YM.try_from_months", [k]))
+    # day-time intervals
+    day = 86400 * 10**6
+    mx = pools.DT_MAX_D * day
+    xs = set()
+    for p in range(0, 19):
+        for d_ in (-1, 0, 1):
+            xs.add(10**p + d_)
+            xs.add(-(10**p) + d_)
+    for unit in (10**6, 60 * 10**6, 3600 * 10**6, day, 7 * day, 365 * day, mx):
+        for mlt in (1, 2, 23, 24, 59, 60):
+            for d_ in (-1, 0, 1):
+                x = unit * mlt + d_
+                if abs(x) <= mx:
+                    xs.add(x)
+                    xs.add(-x)
+    stepS = 17 if v.tier == "quick" else 1
+    for s_ in range(-2 * 86400, 2 * 86400 + 1, stepS):
+        xs.add(s_ * 10**6 + (s_ % 3) * 499999)
+    xs |= {mx, -mx, mx - 1, -mx + 1}
+    xs |= {P.rnd.randint(-mx, mx) for _ in range(2000 * scale_of(v))}
+    for x in sorted(xs):
+        a = pools.us3(x)
+        ax = abs(x)
+        d_, r = divmod(ax, day)
+        h, r = divmod(r, 3600 * 10**6)
+        mi, r = divmod(r, 60 * 10**6)
+        sc, us = divmod(r, 10**6)
+        plan.append(("DT.extract", [a]))
+        plan.append(("DT.try_from_dhms", [d_, h, mi, sc, us]))
+        plan.append(("DT.neg", [a]))
+        plan.append(("DT.acc", [a]))
+        plan.append(("DT.try_from_usecs", [a]))
+        if x > -mx:
+            plan.append(("DT.ord", [a, pools.us3(x - 1)]))
+    plan += pools.plan_for(["YM.try_from_ym", "YM.is_valid_ym", "DT.try_from_dhms", "DT.is_valid", "DT.try_from_usecs",
+                            "YM.try_from_months", "YM.ord", "DT.ord", "YM.months", "DT.usecs"], P, cap=4000)
+    eventtrace(v, "intervals", plan, {"result", "range", "panic"}, shard=40000)
+
+
+@prop("C14")
+def c14(v):
+    import pools
+    v.cov["rule"] = ("IntervalYM / IntervalDT / Time x multipliers and divisors (integers, dyadic and decimal fractions, tiny, huge, "
+                     "signed zeros, infinities, NaN), both signs of both operands; Ops.tla/Scale.tla decode the double exactly "
+                     "(mantissa, exponent) and judge the result with big-integer arithmetic: within relative 2^-51 of the real "
+                     "product/quotient then truncated toward zero, exact when the real value is an integer below 2^53, error kind by "
+                     "class (NaN / infinite / divide-by-zero / out of range).")
+    P = pools.Pools(v.seed, scale_of(v))
+    plan = pools.plan_for(["YM.mul_f64", "YM.div_f64", "DT.mul_f64", "DT.div_f64", "T.mul_f64", "T.div_f64"], P,
+                          cap=100000, heavy_cap=2600 * scale_of(v))
+    eventtrace(v, "scale", plan, {"result", "range", "panic"}, shard=1200)
+
+
+@prop("C16")
+def c16(v):
+    import pools
+    v.cov["rule"] = ("(B1) DaySweep.tla: every day x critical/random times x sub-second parts: OracleDate::from(Timestamp) floors, "
+                     "new, try_from_usecs accepts only whole seconds; (B2) every OracleDate operation x boundary/random operands "
+                     "judged by Ops.tla: value whole-second and in range (ValueInRange), interval add = timestamp result floored, "
+                     "fractional days = nearest second, differences exact.")
+    daysweep(v, "odx", sweep_ranges(v, "full"), "odx", {"of", "on", "ou", "oext"}, 12000, extra=["--ntimes", "4", "--nrand", "2"])
+    P = pools.Pools(v.seed, scale_of(v) * 2)
+    ops = [o for o in pools.SIG if o.startswith("OD.")] + ["TS.oracle_add_days", "TS.oracle_sub_days", "TS.oracle_sub_date",
+                                                            "T.from_od", "D.ord_od", "TS.ord_od"]
+    plan = pools.plan_for(ops, P, cap=2500 * scale_of(v))
+    # which boundary truncation / rounding picks is C10/C11's business; C16 only demands a whole-second in-range value
+    eventtrace(v, "oracle", plan, lambda op: {"range", "panic"} if op in ("OD.trunc", "OD.round") else {"result", "range", "panic"})
 
 
 def replay(path):
